@@ -10,11 +10,17 @@ import PersimVerif.Model.Transformers
           desc = `[zeros,rx,ry]` | `[img,rx,ry,<skew>,<dgm>]` (which diagram, under which geometry, the
           image is the image of — pixel content is abstract here); a rejected call ends the list with `err:Kind`
     lsc.hist homDeg start|none stop|none numSteps flatten <calls>
-        calls = `[ss,v|none] [st,v|none] [ns,n] [fl,T|F] [hd,k] [fit,X] [tr,X] [ft,X]`
+        calls = `[ss,v|none] [st,v|none] [ns,n] [fl,T|F] [hd,k] [fit,X] [tr,X] [ft,X] [cl] [spg]`
+        (`cl` = the object is replaced by `sklearn.base.clone(obj)`, `spg` = `set_params(**get_params())`);
+        coordinates of `X` may be `inf`, `-inf`, `nan` (the type `XR` below; `fin` = "is a rational")
         → first the constructed state, then per call `[start,stop,startFixed,stopFixed,numSteps,flatten,homDeg,res]`,
           res = `ok` | `err:IndexError` | `err:ValueError` | `[out,start,stop,numSteps,homDeg,flattened]`
           (the arguments PersLandscapeApprox is called with)
     lsc.old <fits>     the pre-fix `fit` on a fresh object: `[start,stop]` after each fit
+
+  The states of both trajectories are computed by `irun` / `lrun` on the prefixes of the history — the
+  functions the C18 theorems are about — and the outputs by `icall` / `lcall` from those states; the
+  driver has no loop of its own over the state.
 -/
 namespace PersimVerif.Drv.Transformers
 open PersimVerif Val PersimVerif.Drv PersimVerif.Imager PersimVerif.Transformers
@@ -35,20 +41,64 @@ def icallOf? : Val → Option (ICall Rat)
   | .list [.str "ft", sk, kind, data] => do pure (.fitTransform (← asBool? sk) (← inputOf? kind data))
   | v => (opOf? v).map ICall.cfg
 
-def itrajectory (s : State Rat) (cs : List (ICall Rat)) (acc : List Val) : List Val :=
-  match cs with
-  | [] => acc.reverse
-  | c :: rest =>
-    match icall Rat.ceil imgDesc zerosDesc id s c with
-    | .error e => (errVal e :: acc).reverse
-    | .ok (s', o) => itrajectory s' rest (.list [.list (stateFields s'), outVal o] :: acc)
+/-- entry `k+1 …` of the trajectory: the state is `irun … s0 (first k+1 calls)`, the output is what
+    `icall` returns from `irun … s0 (first k calls)`; the first exception ends the list -/
+def itrajectory (s0 : State Rat) (cs : List (ICall Rat)) : Nat → Nat → List Val → List Val
+  | 0, _, acc => acc.reverse
+  | fuel + 1, k, acc =>
+    match cs[k]?, irun Rat.ceil imgDesc zerosDesc id s0 (cs.take k) with
+    | some c, .ok s =>
+      match icall Rat.ceil imgDesc zerosDesc id s c, irun Rat.ceil imgDesc zerosDesc id s0 (cs.take (k + 1)) with
+      | .ok (_, o), .ok s' => itrajectory s0 cs fuel (k + 1) (.list [.list (stateFields s'), outVal o] :: acc)
+      | .error e, _ => (errVal e :: acc).reverse
+      | _, .error e => (errVal e :: acc).reverse
+    | _, _ => acc.reverse
 
-def lstateVal (s : LState Rat) (res : Val) : Val :=
-  .list [optRatVal s.start, optRatVal s.stop, ofBool s.startFixed, ofBool s.stopFixed,
+/-- landscaper coordinates: rationals, ±∞ and NaN as they arrive from NumPy; `<` as IEEE (false with NaN) -/
+inductive XR where
+  | fin (r : Rat)
+  | pinf
+  | ninf
+  | nan
+  deriving DecidableEq
+
+def XR.lt : XR → XR → Bool
+  | .fin a, .fin b => decide (a < b)
+  | .ninf, .fin _ => true
+  | .ninf, .pinf => true
+  | .fin _, .pinf => true
+  | _, _ => false
+
+instance : LT XR := ⟨fun a b => XR.lt a b = true⟩
+instance : DecidableLT XR := fun a b => inferInstanceAs (Decidable (XR.lt a b = true))
+
+/-- `np.isfinite` -/
+def XR.isFin : XR → Bool
+  | .fin _ => true
+  | _ => false
+
+def asXR? : Val → Option XR
+  | .num r => some (.fin r)
+  | .inf neg => some (if neg then .ninf else .pinf)
+  | .nan => some .nan
+  | _ => none
+
+def xrVal : XR → Val
+  | .fin r => .num r
+  | .pinf => .inf false
+  | .ninf => .inf true
+  | .nan => .nan
+
+def optXRVal : Option XR → Val
+  | none => .str "none"
+  | some x => xrVal x
+
+def lstateVal (s : LState XR) (res : Val) : Val :=
+  .list [optXRVal s.start, optXRVal s.stop, ofBool s.startFixed, ofBool s.stopFixed,
          ofInt s.numSteps, ofBool s.flatten, ofInt s.homDeg, res]
 
-def approxDesc (_X : List (Dgm Rat)) (st sp : Option Rat) (n k : Int) : Val :=
-  .list [.str "out", optRatVal st, optRatVal sp, ofInt n, ofInt k, ofBool false]
+def approxDesc (_X : List (Dgm XR)) (st sp : Option XR) (n k : Int) : Val :=
+  .list [.str "out", optXRVal st, optXRVal sp, ofInt n, ofInt k, ofBool false]
 
 def flatDesc : Val → Val
   | .list [o, st, sp, n, k, _] => .list [o, st, sp, n, k, ofBool true]
@@ -58,35 +108,42 @@ def lerrVal : LErr → Val
   | .indexError => err "IndexError"
   | .valueError => err "ValueError"
 
-def dgmsOf? : Val → Option (List (Dgm Rat)) := listOf? ratDgm?
+def dgmsOf? : Val → Option (List (Dgm XR)) := listOf? (dgmOf? asXR?)
 
-def lcallOf? : Val → Option (LCall Rat)
-  | .list [.str "ss", v] => do pure (.setStart (← optOf? asRat? v))
-  | .list [.str "st", v] => do pure (.setStop (← optOf? asRat? v))
+def lcallOf? : Val → Option (LCall XR)
+  | .list [.str "ss", v] => do pure (.setStart (← optOf? asXR? v))
+  | .list [.str "st", v] => do pure (.setStop (← optOf? asXR? v))
   | .list [.str "ns", n] => do pure (.setNumSteps (← asInt? n))
   | .list [.str "fl", b] => do pure (.setFlatten (← asBool? b))
   | .list [.str "hd", k] => do pure (.setHomDeg (← asInt? k))
   | .list [.str "fit", X] => do pure (.fit (← dgmsOf? X))
   | .list [.str "tr", X] => do pure (.transform (← dgmsOf? X))
   | .list [.str "ft", X] => do pure (.fitTransform (← dgmsOf? X))
+  | .list [.str "cl"] => some .clone
+  | .list [.str "spg"] => some .setParamsFromGet
   | _ => none
 
-/-- mirrors `lrun`: a call that raises leaves the state and the history goes on -/
-def ltrajectory (s : LState Rat) (cs : List (LCall Rat)) (acc : List Val) : List Val :=
-  match cs with
-  | [] => acc.reverse
-  | c :: rest =>
-    match lcall approxDesc flatDesc s c with
-    | .error e => ltrajectory s rest (lstateVal s (lerrVal e) :: acc)
-    | .ok (s', o) => ltrajectory s' rest (lstateVal s' (o.getD (.str "ok")) :: acc)
+/-- entry `k+1` of the trajectory: the state is `lrun … s0 (first k+1 calls)` (a call that raises leaves
+    the state and the history goes on), the result is what `lcall` returns from `lrun … s0 (first k calls)` -/
+def ltrajectory (s0 : LState XR) (cs : List (LCall XR)) : Nat → Nat → List Val → List Val
+  | 0, _, acc => acc.reverse
+  | fuel + 1, k, acc =>
+    match cs[k]? with
+    | none => acc.reverse
+    | some c =>
+      let s' := lrun XR.isFin approxDesc flatDesc s0 (cs.take (k + 1))
+      let res := match lcall XR.isFin approxDesc flatDesc (lrun XR.isFin approxDesc flatDesc s0 (cs.take k)) c with
+        | .error e => lerrVal e
+        | .ok (_, o) => o.getD (.str "ok")
+      ltrajectory s0 cs fuel (k + 1) (lstateVal s' res :: acc)
 
-def oldTrajectory (s : LState Rat) (Xs : List (List (Dgm Rat))) (acc : List Val) : List Val :=
+def oldTrajectory (s : LState XR) (Xs : List (List (Dgm XR))) (acc : List Val) : List Val :=
   match Xs with
   | [] => acc.reverse
   | X :: rest =>
     match lfitOld s X with
     | .error e => oldTrajectory s rest (lerrVal e :: acc)
-    | .ok s' => oldTrajectory s' rest (.list [optRatVal s'.start, optRatVal s'.stop] :: acc)
+    | .ok s' => oldTrajectory s' rest (.list [optXRVal s'.start, optXRVal s'.stop] :: acc)
 
 def handle : Handler
   | "imgT.hist", [br, pr, ps, calls] => do
@@ -96,11 +153,11 @@ def handle : Handler
     let cs ← listOf? icallOf? calls
     match ctor Rat.ceil b0 b1 p0 p1 ps with
     | .error e => pure (.list [errVal e])
-    | .ok s => pure (.list (itrajectory s cs [.list [.list (stateFields s), .str "none"]]))
+    | .ok s => pure (.list (itrajectory s cs cs.length 0 [.list [.list (stateFields s), .str "none"]]))
   | "lsc.hist", [hd, st, sp, ns, fl, calls] => do
-    let s : LState Rat := lctor (← asInt? hd) (← optOf? asRat? st) (← optOf? asRat? sp) (← asInt? ns) (← asBool? fl)
+    let s : LState XR := lctor (← asInt? hd) (← optOf? asXR? st) (← optOf? asXR? sp) (← asInt? ns) (← asBool? fl)
     let cs ← listOf? lcallOf? calls
-    pure (.list (ltrajectory s cs [lstateVal s (.str "ok")]))
+    pure (.list (ltrajectory s cs cs.length 0 [lstateVal s (.str "ok")]))
   | "lsc.old", [fits] => do
     let Xs ← listOf? dgmsOf? fits
     pure (.list (oldTrajectory (lctor 0 none none 500 false) Xs []))
